@@ -157,8 +157,19 @@ def check_element(ctx, case):
         setup_variant_for_replay(ctx, tname)
     T = _state['tables'][tname]
     el = T[Z]
-    # the set of isotopes is exactly the set of rows
-    ctx.evaluated(what='isotope-set')
+    # assignments the library refuses (caught by the caller) leave the values as they were; where an assignment is
+    # accepted the value is the caller's from then on and the atom is not judged further
+    if case.get('refused_assignments', Z % 3 == 0):
+        kept = True
+        for name, value in (('density', -1.0), ('density', 'heavy'), ('mass', -5.0), ('number_density', 0.0)):
+            try:
+                setattr(el, name, value)
+                kept = False
+                ctx.count('refused_assignment.accepted')
+            except Exception:
+                ctx.count('refused_assignment.refused')
+        if not kept:
+            return
     if list(el.isotopes) != m.isotopes.get(Z, []):
         ctx.violation('isotopes of Z=%d are %r, table rows give %r' % (Z, el.isotopes, m.isotopes.get(Z)))
         return
